@@ -85,7 +85,7 @@ def coalesce_text(t: dict) -> dict:
     out = []
     for c in t["c"]:
         c = coalesce_text(c)
-        is_txt = c["t"] == "RawText" and c.get("esc", True)
+        is_txt = (c["t"] == "RawText" and c.get("esc", True)) or c["t"] == "Literal"     # an escaped character is text (line-start escapes come and go with the wrapping)
         is_soft = c["t"] == "LineBreak" and c.get("soft")
         if is_txt or is_soft:
             s = c["s"] if is_txt else " "
